@@ -68,7 +68,13 @@ class CenterSliceErrorModel(SimpleErrorModel):
     @classmethod
     def _normalize(cls, r):
         """params: lim:np.array(3d). return:lim:np.array(3d)."""
-        return r / np.linalg.norm(r, ord=1)
+        with np.errstate(over='ignore'):
+            norm = np.linalg.norm(r, ord=1)
+        if not np.isfinite(norm):
+            # sum of finite components overflows so scale by largest component first
+            r = r / np.max(np.abs(r))
+            norm = np.linalg.norm(r, ord=1)
+        return r / norm
 
     @classmethod
     def _ratio(cls, lim, pos):
